@@ -166,6 +166,10 @@ type c14Input struct {
 	Heads  map[string]int `json:"heads"`  // existing branches -> orig commit id
 	Staged map[string]int `json:"staged"` // branch -> staged orig commit id
 	Ops    []c14Op        `json:"ops"`
+	// branches whose staged commit carries a message so close to the 65535-byte limit that it no
+	// longer fits once `transaction commit` has put its "commit [tx/<id>]" line in front: such a
+	// transaction cannot be committed, and must then not be committed in part either
+	Unwritable []string `json:"unwritable,omitempty"`
 }
 
 type c14State struct {
@@ -185,11 +189,22 @@ func c14Run(in *c14Input) Res {
 		defer closeRS()
 		sums := map[int][]byte{}
 		idOf := map[string]int{}
+		longID := map[int]bool{}
+		for _, b := range in.Unwritable {
+			if c, ok := in.Staged[b]; ok {
+				longID[c] = true
+			}
+		}
 		mk := func(id int) []byte {
 			if s, ok := sums[id]; ok {
 				return s
 			}
 			com := &objects.Commit{Table: fakeSum(id), AuthorName: "a", AuthorEmail: "e", Time: time.Unix(int64(1700000000+id), 0).UTC(), Message: "c" + itoa(id)}
+			if longID[id] {
+				// 65500..65535 bytes in all, still ending in "\nc<id>"
+				tail := "\nc" + itoa(id)
+				com.Message = strings.Repeat("x", 65500+id%36-len(tail)) + tail
+			}
 			buf := newBuf()
 			com.WriteTo(buf)
 			s, _ := objects.SaveCommit(db, buf.Bytes())
@@ -417,6 +432,18 @@ func runC14(ctx *Ctx) {
 		if op.Sql != "" {
 			nt = true
 		}
+	}
+	if ctx.Idx%25 == 7 && len(in.Staged) >= 2 {
+		// one staged commit cannot be rewritten: every commit of the transaction must fail before it
+		// moves anything
+		bs := []string{}
+		for b := range in.Staged {
+			bs = append(bs, b)
+		}
+		sort.Strings(bs)
+		in.Unwritable = []string{bs[(ctx.Idx/25)%len(bs)]}
+		tags = append(tags, "unwritable-staged-commit")
+		nt = true
 	}
 	ctx.Emit("tx", in, c14Run(in), nt, tags...)
 }
